@@ -529,7 +529,7 @@ impl Check for C07 {
         ]
     }
     fn required_probes(&self) -> Vec<&'static str> {
-        vec!["second_solve", "resetup", "perturbation_twin", "goal_sampler_consumes_rng"]
+        vec!["second_solve", "resetup", "perturbation_twin", "goal_sampler_consumes_rng", "prm_deadline_moved_within_iteration"]
     }
     fn generate(&self, seed: u64, index: u64, tier: Tier) -> Scenario {
         let mut rng = Xo::new(mix(seed, "C07", index));
@@ -654,7 +654,52 @@ impl Check for C07 {
                     _ => {}
                 }
             }
-            if scn.planner.kind != PlannerKind::PRM {
+            if scn.planner.kind == PlannerKind::PRM {
+                // PRM at equal sample counts: let the construction deadline fall at another point
+                // inside the last iteration (inside one of its validity queries instead of inside
+                // its sampling call); roadmap and query results must not change
+                if let Some(cc) = scn.calls.iter().position(|c| matches!(c, CallSpec::Construct { .. })) {
+                    if let Some(call) = a.calls.get(cc) {
+                        let evs = &a.log[call.ev_lo..call.ev_hi];
+                        let n_samples = evs.iter().filter(|e| e.phase() == Some(Phase::Sample)).count() as u64;
+                        let last_sample_pos = evs.iter().rposition(|e| e.phase() == Some(Phase::Sample)).unwrap_or(0);
+                        let v0 = evs[..last_sample_pos].iter().filter(|e| e.phase() == Some(Phase::Valid)).count() as u64;
+                        let v1 = evs.iter().filter(|e| e.phase() == Some(Phase::Valid)).count() as u64;
+                        if n_samples >= 1 && v1 > v0 {
+                            let mut s3 = scn.clone();
+                            let mut k = v0 + 1;
+                            let mut tried = 0;
+                            while k <= v1 && tried < 4 {
+                                s3.calls[cc] = CallSpec::Construct {
+                                    stalls: vec![
+                                        Stall { at: Phase::Valid, nth: k, ns: STALL_NS },
+                                        Stall { at: Phase::Sample, nth: n_samples + 1, ns: STALL_NS },
+                                    ],
+                                };
+                                let c = run(&s3, &RunOpts::default());
+                                rep.absorb(&c);
+                                rep.probe("prm_deadline_moved_within_iteration");
+                                let same_samples = c.calls.get(cc).map(|x| c.log[x.ev_lo..x.ev_hi].iter().filter(|e| e.phase() == Some(Phase::Sample)).count() as u64) == Some(n_samples);
+                                if same_samples {
+                                    let snap_differs = c.calls.get(cc).map(|x| &x.snap) != a.calls.get(cc).map(|x| &x.snap);
+                                    let res_differs = (0..a.calls.len().min(c.calls.len())).any(|i| !res_bits_eq(&a.calls[i].res, &c.calls[i].res));
+                                    if snap_differs || res_differs {
+                                        v.push(viol(
+                                            "C07",
+                                            "C07/time_changes_decisions/PRM".into(),
+                                            format!("PRM with the same seed and the same number of samples ({n_samples}) built a different roadmap / answered differently when the construction deadline fell at validity query {k} instead of inside the last sampling call"),
+                                        ));
+                                        break;
+                                    }
+                                }
+                                // spread the tried positions over the last iteration
+                                k += ((v1 - v0) / 4).max(1);
+                                tried += 1;
+                            }
+                        }
+                    }
+                }
+            } else {
                 let c = run(&s2, &RunOpts::default());
                 rep.absorb(&c);
                 let strip = |o: &crate::sim::Outcome| -> Vec<Ev> { o.log.iter().filter(|e| e.phase().is_some()).cloned().collect() };
